@@ -319,9 +319,62 @@ func Main(prop string, body func(r *Run)) {
 	r := Start(prop)
 	p, v, st := Guard(func() { body(r) })
 	if p {
-		r.HarnessFail("harness panic: %v\n%s", v, trimStack(st))
+		r.panicked("main goroutine", v, st)
 	}
 	r.Finish()
+}
+
+// Recover is deferred at the top of every goroutine a driver starts: a panic there would otherwise end the
+// process and every monitor with it.
+func (r *Run) Recover(where string) {
+	if v := recover(); v != nil {
+		r.panicked(where, v, string(debug.Stack()))
+	}
+}
+
+// panicked attributes a panic that escaped every per-call guard. The frame that raised it decides: code of the
+// repository under test (possibly through the standard library) on an input the driver did not expect to fail is a
+// violation of the property being driven; a frame of the harness itself is a harness failure.
+func (r *Run) panicked(where string, v any, stack string) {
+	fn, file := panicOrigin(stack)
+	if fn == "" || strings.Contains(file, "/harness/") || strings.Contains(file, "/zz_verif/") {
+		r.HarnessFail("harness panic (%s): %v\n%s", where, v, trimStack(stack))
+		return
+	}
+	r.Violation("escaped-panic:"+fn, fmt.Sprintf("%s panicked (%v) in a call the workload makes with valid arguments (%s)", fn, v, where), map[string]any{"stack": trimStack(stack)})
+	r.Eval("ESCAPED-PANIC")
+}
+
+// panicOrigin returns the first frame below the runtime's panic machinery that is not standard-library code.
+func panicOrigin(stack string) (fn, file string) {
+	lines := strings.Split(stack, "\n")
+	goroot := runtime.GOROOT()
+	seenPanic := false
+	for i := 0; i+1 < len(lines); i++ {
+		l := lines[i]
+		if !seenPanic {
+			if strings.HasPrefix(l, "panic(") {
+				seenPanic = true
+			}
+			continue
+		}
+		if strings.HasPrefix(l, "\t") || !strings.HasPrefix(lines[i+1], "\t") {
+			continue
+		}
+		f := strings.TrimSpace(lines[i+1])
+		if k := strings.LastIndex(f, ":"); k > 0 {
+			f = f[:k]
+		}
+		if (goroot != "" && strings.HasPrefix(f, goroot)) || strings.Contains(f, "/src/runtime/") || !strings.Contains(l, "/") && !strings.Contains(l, "main.") {
+			continue // standard library frame
+		}
+		name := l
+		if k := strings.LastIndex(name, "("); k > 0 {
+			name = name[:k]
+		}
+		return name, f
+	}
+	return "", ""
 }
 
 func trimStack(s string) string {
